@@ -2,19 +2,21 @@
 """matrix.py <lane> <mutant:ids,...>... - self-evaluation: run checks against seeded changes on a scratch copy of /repo
 (never touches /repo).  Result lines are appended to /verif/out/matrix_<lane>.jsonl."""
 import json, os, subprocess, sys, shutil, time
+BASE = os.path.dirname(os.path.abspath(__file__))
+os.makedirs(BASE + "/out", exist_ok=True)
 lane = sys.argv[1]
 jobs = sys.argv[2:]
 scratch = "/tmp/matrix_repo_" + lane
 if not os.path.exists(scratch):
     subprocess.run(["git", "clone", "-q", "/repo", scratch], check=True)
-res = open("/verif/out/matrix_%s.jsonl" % lane, "a")
+res = open(BASE + "/out/matrix_%s.jsonl" % lane, "a")
 for job in jobs:
     mut, ids = job.split(":")
     subprocess.run(["git", "-C", scratch, "checkout", "-q", "--", "."], check=True)
-    subprocess.run(["git", "-C", scratch, "apply", "/verif/seeded/%s/patch.diff" % mut], check=True)
+    subprocess.run(["git", "-C", scratch, "apply", BASE + "/seeded/%s/patch.diff" % mut], check=True)
     for cid in ids.split(","):
         t = time.time()
-        p = subprocess.run(["nice", "-n", "10", "./check", cid], cwd="/verif", env=dict(os.environ, VERIF_REPO=scratch, VERIF_LANE=lane), stdout=subprocess.PIPE, stderr=subprocess.STDOUT, text=True)
+        p = subprocess.run(["nice", "-n", "10", "./check", cid], cwd=BASE, env=dict(os.environ, VERIF_REPO=scratch, VERIF_LANE=lane), stdout=subprocess.PIPE, stderr=subprocess.STDOUT, text=True)
         line = [l for l in p.stdout.splitlines() if l.startswith(cid + " ")]
         rec = {"mutant": mut, "check": cid, "rc": p.returncode, "summary": (line[-1] if line else p.stdout[-300:]), "wall": round(time.time() - t)}
         res.write(json.dumps(rec) + "\n"); res.flush()
